@@ -1,5 +1,5 @@
 SPECIFICATION Spec
 CONSTANTS MaxOps = 3  MaxIng = 2  MaxArch = 1
-INVARIANTS TypeOK FlavourArchiveInvisible ManifestsCarried UnsignedClean TamperedIngredientRecorded
+INVARIANTS TypeOK FlavourArchiveInvisible ManifestsCarried UnsignedClean TamperedIngredientRecorded ProfileLocal
 PROPERTIES DescStable
 CHECK_DEADLOCK FALSE
